@@ -6,7 +6,7 @@ from .. import inputs
 
 SPEC = dict(
     technique='Lean 4 proof (argument-form model, scalar/packed and unit equalities on the regenerated model) + exhaustive correspondence and form enumeration',
-    lean_modules=['SmVerif.Props.C15'],
+    lean_modules=['SmVerif.Props.C15', 'SmVerif.Props.Units'],
     groups=['Transforms3d', 'Transforms2d', 'Quaternions'],
     expected_untranslatable=('trinterp_T', 'trinterp_T_nostart'),
     partial=['getvector/isvector are hand-modelled (Logic.ArgCheck) and tied by this enumeration; deg = rad·pi/180 and scalar-vs-packed '
